@@ -134,10 +134,11 @@ structure Inv (isReq : Bool) (lim0 : Int) (pre : List Field) (s : PS) : Prop whe
   nodup : s.seen.Nodup
   clNone : s.readCL = false → (∀ f ∈ pre, f.1 ≠ nContentLength) ∧ s.clStr = []
   clSome : s.readCL = true → ∀ f ∈ pre, f.1 = nContentLength → f.2 = s.clStr
+  clWitness : s.readCL = true → ∃ f ∈ pre, f.1 = nContentLength ∧ f.2 = s.clStr
   hdrv : ∀ n ∈ knownPseudo, getPseudo s.hdr n = fieldValue pre n
 
 theorem inv_init (isReq : Bool) (lim : Int) : Inv isReq lim [] { limit := lim } := by
-  refine ⟨by simp [sectionSize], by simp, ?_, ?_, ?_, ?_, ?_, ?_, ?_, ?_, ?_, ?_, ?_, ?_, ?_, ?_⟩ <;>
+  refine ⟨by simp [sectionSize], by simp, ?_, ?_, ?_, ?_, ?_, ?_, ?_, ?_, ?_, ?_, ?_, ?_, ?_, ?_, ?_⟩ <;>
     simp [NameTokens, ValueBytes, NoConnectionSpecific, TeTrailers, PseudoKnown, PseudoFirst, decodedHeaders]
   intro n hn
   simp only [knownPseudo, List.mem_cons, List.not_mem_nil, or_false] at hn
